@@ -39,13 +39,31 @@ def headers(path):
     return hd, t, ph, lt
 
 
+_ENTRY = [0]
+
+
 def run_select(path, kw, suffix):
-    from ixpeobssim.bin.xpselect import PARSER
+    """the selection through the three entry points users have: the class, the pipeline wrapper (bounds as numpy scalars, as the
+    package's own examples pass them) and the command line (bounds as text)"""
+    from ixpeobssim.bin.xpselect import PARSER, xpselect as app
     from ixpeobssim.evt import subselect
-    kwargs = PARSER.parse_args([path]).__dict__
-    kwargs.update(kw)
-    kwargs.update(ltimeupdate=True, suffix=suffix)
-    return subselect.xEventSelect(path, **kwargs).select()
+    _ENTRY[0] += 1
+    entry = _ENTRY[0] % 3
+    if entry == 0:
+        kwargs = PARSER.parse_args([path]).__dict__
+        kwargs.update(kw)
+        kwargs.update(ltimeupdate=True, suffix=suffix)
+        return subselect.xEventSelect(path, **kwargs).select()
+    if entry == 1:
+        from ixpeobssim.core import pipeline
+        kws = {k: (numpy.float64(v) if isinstance(v, float) else v) for k, v in kw.items()}
+        out_ = pipeline.xpselect(path, ltimeupdate=True, suffix=suffix, overwrite=True, **kws)
+        return out_[0] if isinstance(out_, (list, tuple)) else out_
+    argv = [path, '--ltimeupdate', 'True', '--suffix', suffix, '--overwrite', 'True']
+    for k, v in kw.items():
+        argv.append('--%s=%s' % (k, repr(v) if isinstance(v, float) else v))
+    out_ = app(**PARSER.parse_args(argv).__dict__)
+    return out_[0] if isinstance(out_, (list, tuple)) else out_
 
 
 def documented(hd0, t, ph, lt, kw):
@@ -196,7 +214,7 @@ def main(chk):
                 'output of the first; TSTART/TSTOP/ONTIME/LIVETIME/DEADC of PRIMARY, EVENTS and GTI compared with the documented values and with the Lean model '
                 'run on Float. non-trivial = one-sided window or two GTIs')
     chk.assumptions = TRUSTED
-    chk.lean(['IxpeVerif.Props.C10'])
+    chk.lean(['IxpeVerif.Props.C10', 'IxpeVerif.Props.StateAudit'])
     n = 40 if chk.tier == 'quick' else 800
     run_cases(chk, n, 'C10-corr')
     return chk.finish(level='proof', trusted=TRUSTED, search=lambda k: run_cases(chk, n, 'C10-search', 3))
